@@ -100,6 +100,8 @@ func journalBegin(st *mc.Stats, b []byte, conv int, via string) int {
 	journal[o+6] = 0
 	if via == "load" {
 		journal[o+5] = 1
+	} else if via == "load+text" {
+		journal[o+5] = 100
 	} else if isFileVia(via) {
 		for i, p := range ClosePatterns {
 			if fileVia(p) == via {
@@ -143,6 +145,8 @@ func inFlight(j []byte) []In {
 		via := "ar"
 		if j[o+5] == 1 {
 			via = "load"
+		} else if j[o+5] == 100 {
+			via = "load+text"
 		} else if k := int(j[o+5]); k >= 2 && k-2 < len(ClosePatterns) {
 			via = fileVia(ClosePatterns[k-2])
 		}
